@@ -18,6 +18,7 @@
    q.eqok <qa> <qb> <constA> <constB> <sameDomain> <equal>
    q.trok <qa> <ua> <var> <qr> <ur>
    q.labelok <q> <u>
+   q.freshok <domain> <q> <u>   (units of a fresh / analysis-produced expression: spec's expectedDim)
    q.dim <u>                    -> v,a,t
 -/
 import Lcapy.Generated.Quantities
@@ -148,6 +149,10 @@ def handle (toks : List String) : Option String :=
       match Quantity.ofString? qa, parseU ua, parseU var, Quantity.ofString? qr, parseU ur with
       | some qa, some ua, some var, some qr, some ur => bstr (transformOk qa ua var qr ur)
       | _, _, _, _, _ => "bad-op"
+  | ["q.freshok", d, q, u] => some <|
+      match Domain.ofString? d, Quantity.ofString? q, parseU u with
+      | some d, some q, some u => bstr (freshOk d q u)
+      | _, _, _ => "bad-op"
   | ["q.labelok", q, u] => some <|
       match Quantity.ofString? q, parseU u with
       | some q, some u => bstr (labelOk q u)
